@@ -4,6 +4,7 @@ T  lean/Cherab/Props/C16.lean       generic: invalidation protocol (no_stale => 
                                     interpreter invariant (never_attr_error), arithmetic over an ordered field
    lean/Cherab/Props/C16Table.lean  wf_* / covered_* / *_settings_follow on the tables generated from the source
    lean/Cherab/Props/C16Init.lean   init_total_* on the generated tables
+   lean/Cherab/Props/C16Alias.lean  no_alias_* (no attribute keeps a caller-owned container, except the documented ones)
 K  translator   harness/translators/instrument_edges.py -> lean/Cherab/Gen/InstrumentEdges.lean (every run)
    shape stream the generated tables are *interpreted* by the Lean model (native driver) along random and exhaustive
                 histories of setter / getter / method calls on the real classes: exception kind, which attributes are
@@ -756,6 +757,209 @@ def valid_cases(ctx, stream, n):
     value_lines(ctx, r, stream)
 
 
+# ------------------------------------------------------------------------------------------------ aliasing histories
+CONTAINER_PARAMS = ('wavelength_to_pixel', 'accommodated_spectra', 'filters')
+OBSERVED_ALIASING = {}       # class -> set of attributes seen to keep a reference to the caller's object (K vs. table)
+
+
+class Caller:
+    """an object owned by the caller, handed to a setter / constructor, later changed in place"""
+
+    def __init__(self, label, obj, arrays, mutate, spec):
+        self.label, self.obj, self.arrays, self.mutate, self.spec = label, obj, arrays, mutate, spec
+        self.flags = [a.flags.writeable for a in arrays]
+        self.snap = self.freeze()
+
+    def freeze(self):
+        def fz(x):
+            if isinstance(x, np.ndarray):
+                return ('nd', x.dtype.str, tuple(x.ravel().tolist()), x.shape)
+            if isinstance(x, (list, tuple)):
+                return (type(x).__name__,) + tuple(fz(y) for y in x)
+            return x if isinstance(x, (int, float, str, type(None))) else id(x)
+        return fz(self.obj), tuple(fz(a) for a in self.arrays)
+
+    def untouched(self):
+        return self.freeze() == self.snap and [a.flags.writeable for a in self.arrays] == self.flags
+
+
+def caller_variants(rng, prop, spec, vals):
+    """the ways a user can hand over the value `spec` of a container-valued parameter and change it afterwards"""
+    out = []
+    if prop == 'wavelength_to_pixel':
+        arrs = [np.array(a, dtype=float) for a in spec]
+
+        def mut_arrays(c):
+            for a in c.arrays:
+                a[0] -= 0.125
+                a[-1] += 0.5
+        out.append(Caller('tuple-of-float64-arrays', tuple(arrs), arrs, mut_arrays, spec))
+        arrs2 = [np.array(a, dtype=float) for a in spec]
+        outer = list(arrs2)
+
+        def mut_outer(c):
+            mut_arrays(c)
+            c.obj.append(np.array([100.0, 101.0, 103.0]))
+        out.append(Caller('list-of-float64-arrays', outer, arrs2, mut_outer, spec))
+        buf = np.concatenate([np.array([0.0])] + [np.array(a, dtype=float) for a in spec] + [np.array([1e4])])
+        views, k = [], 1
+        for a in spec:
+            views.append(buf[k:k + len(a)])
+            k += len(a)
+
+        def mut_buf(c):
+            k = 1
+            for a in c.spec:
+                c.arrays[0][k] -= 0.125
+                c.arrays[0][k + len(a) - 1] += 0.5
+                k += len(a)
+        out.append(Caller('slices-of-a-shared-buffer', tuple(views), [buf], mut_buf, spec))
+        ll = [list(a) for a in spec]
+
+        def mut_ll(c):
+            c.obj[0][0] -= 0.125
+            c.obj[-1][-1] += 0.5
+            c.obj.append([100.0, 101.0])
+        out.append(Caller('list-of-lists', ll, [], mut_ll, spec))
+        n = len(spec[0])
+        spec2 = [list(spec[0]), [x + 1000.0 for x in spec[0]]]
+        a2 = np.array(spec2, dtype=float)
+
+        def mut_2d(c):
+            c.arrays[0][:, 0] -= 0.125
+            c.arrays[0][:, -1] += 0.5
+        out.append(Caller('2d-float64-array', a2, [a2], mut_2d, spec2))
+        speci = [[float(400 + 3 * i) for i in range(n)], [float(900 + 2 * i) for i in range(n + 1)]]
+        ai = [np.array(a, dtype=np.int64) for a in speci]
+
+        def mut_int(c):
+            for a in c.arrays:
+                a[0] -= 1
+                a[-1] += 1
+        out.append(Caller('tuple-of-int64-arrays', tuple(ai), ai, mut_int, speci))
+    elif prop == 'accommodated_spectra':
+        def mut_acc(c):
+            c.obj[0] = type(c.obj[0])([c.obj[0][0] + 10.0, c.obj[0][1] + 1])
+            c.obj.append(type(c.obj[0])([450.0, 2]))
+        out.append(Caller('list-of-tuples', [tuple(a) for a in spec], [], mut_acc, spec))
+
+        def mut_inner(c):
+            c.obj[0][0] += 10.0
+            c.obj[-1][1] += 1
+        out.append(Caller('list-of-lists', [list(a) for a in spec], [], mut_inner, spec))
+        a2 = np.array(spec, dtype=float)
+
+        def mut_a2(c):
+            c.arrays[0][0, 0] += 10.0
+            c.arrays[0][-1, 1] += 1
+        out.append(Caller('2d-float64-array', a2, [a2], mut_a2, spec))
+    elif prop == 'filters':
+        fl = vals.make('filters', spec, 0)
+
+        def mut_fl(c):
+            c.obj.append(make_filter(['trap', 987.0, 4.0, None, 'late']))
+            if len(c.obj) > 2:
+                del c.obj[0]
+        out.append(Caller('list', list(fl), [], mut_fl, spec))
+    return out
+
+
+def _arrays_in(v):
+    if isinstance(v, np.ndarray):
+        yield v
+    elif isinstance(v, (list, tuple)):
+        for x in v:
+            yield from _arrays_in(x)
+
+
+def alias_case(ctx, vals, tab, params, prop, label, via, other=None):
+    """S: hand a caller-owned container to `prop` (constructor or setter), fill the caches, change the container in place,
+    read everything; where the tree copies (every parameter except the documented ones) nothing may change"""
+    cname = tab['name']
+    cls = find_class(cname)
+    callers = [c for c in caller_variants(ctx.rng, prop, params[prop], vals) if c.label == label]
+    if not callers:
+        return
+    c = callers[0]
+    orig = dict(params)
+    orig[prop] = c.spec
+    replay = dict(kind='alias', cls=cname, prop=prop, variant=label, via=via, params=params, other=other)
+    doc_params = {a.lstrip('_') for a in tab.get('documented_aliasing', [])}
+    try:
+        if via == 'ctor':
+            inst = cls(**{k: (c.obj if k == prop else vals.make(k, v)) for k, v in params.items()})
+        else:
+            inst = cls(**{k: vals.make(k, v) for k, v in params.items()})
+            setattr(inst, prop, c.obj)
+    except Exception as e:  # noqa
+        ctx.count('alias:variant-rejected:%s:%s' % (prop, label))
+        return
+    ctx.case(key=('alias', cname, prop, label, via, other[0] if other else None))
+    ctx.count('alias-history:%s:%s' % (cname, prop))
+    if not c.untouched():
+        ctx.fail('C16:%s:assignment-modifies-caller-object:%s' % (cname, prop),
+                 'assigning a %s to %s changed the caller\'s object (values or writeable flag)' % (label, prop), replay)
+    kept = set()
+    mine = list(c.arrays) + list(_arrays_in(c.obj))
+    for a, v in inst.__dict__.items():
+        if v is c.obj or any(np.shares_memory(x, y) for x in _arrays_in(v) for y in mine):
+            kept.add(a)
+    OBSERVED_ALIASING.setdefault(cname, set()).update(kept)
+    before = {n: call_public(inst, n) for n, _ in tab['getters']}
+    try:
+        c.mutate(c)
+        mutated = 'ok'
+    except ValueError as e:
+        mutated = 'ValueError:' + str(e)[:80]
+    if mutated != 'ok' and prop not in doc_params:
+        ctx.fail('C16:%s:assignment-modifies-caller-object:%s' % (cname, prop),
+                 'after assigning a %s to %s the caller can no longer write to its own array: %s' % (label, prop, mutated), replay)
+    fresh = cls(**{k: vals.make(k, v, 1) for k, v in orig.items()})
+    if other is not None:                     # a later, unrelated setter call forces the caches to be recomputed
+        o = vals.make(other[0], other[1])
+        setattr(inst, other[0], o)
+        setattr(fresh, other[0], o)
+    after = {n: call_public(inst, n) for n, _ in tab['getters']}
+    ref = {n: call_public(fresh, n) for n, _ in tab['getters']}
+    bad = [n for n in after if not (after[n][0].split(':')[0] == ref[n][0].split(':')[0] and (after[n][1] is None) == (ref[n][1] is None)
+                                    and (after[n][1] is None or same(after[n][1], ref[n][1])))]
+    if prop in doc_params:
+        obs = ctx.extra.setdefault('aliasing_documented', {}).setdefault('%s.%s' % (cname, prop), {})
+        ent = obs.setdefault(label, dict(attributes_kept_by_reference=[], observables_following_the_callers_object=[]))
+        ent['attributes_kept_by_reference'] = sorted(set(ent['attributes_kept_by_reference']) | kept)
+        ent['observables_following_the_callers_object'] = sorted(set(ent['observables_following_the_callers_object']) | set(bad))
+        return
+    ctx.extra.setdefault('aliasing_probe', {}).setdefault('%s.%s' % (cname, prop), {})[label + '/' + via] = \
+        'copied' if not kept and not bad else 'ALIASED attrs=%s observables=%s' % (sorted(kept), bad)
+    if kept or bad:
+        ctx.fail('C16:%s:aliases-caller-object:%s' % (cname, prop),
+                 '%s handed over as %s (%s): %s; after the caller changed its own object in place %s differ from an instrument built '
+                 'from the original values (e.g. %s: %r vs %r)'
+                 % (prop, label, via, ('attributes %s share the caller\'s memory' % sorted(kept)) if kept else 'no shared memory found',
+                    bad or 'no observables', bad[0] if bad else '-', str(after[bad[0]])[:120] if bad else '', str(ref[bad[0]])[:120] if bad else ''),
+                 replay)
+
+
+def alias_histories(ctx, vals, tab, n):
+    rng = ctx.rng
+    rig = Rig(ctx, tab, Stream(), vals)
+    props = [p for p in rig.ctor_args if p in CONTAINER_PARAMS]
+    for it in range(n):
+        params = base_params(rng, rig)
+        for prop in props:
+            labels = [c.label for c in caller_variants(rng, prop, params[prop], vals)]
+            for label in labels:
+                for via in ('ctor', 'setter'):
+                    if via == 'setter' and prop not in dict(tab['setters']):
+                        continue
+                    others = [p for p, _ in tab['setters'] if p != prop and p not in CONTAINER_PARAMS]
+                    other = None
+                    if others and rng.random() < 0.5:
+                        op = rng.choice(others)
+                        other = [op, gen_value(rng, op, params.get(op))]
+                    alias_case(ctx, vals, tab, params, prop, label, via, other)
+
+
 # ------------------------------------------------------------------------------------------------ deps stream
 def deps_check(ctx, stream, vals, tab, base):
     """`deps` derived in Lean from the table  vs.  perturbing each parameter of a real instrument"""
@@ -854,13 +1058,18 @@ def run(ctx):
                 'Polychromator(+Trapezoidal/PolychromatorFilter): every ordered pair and triple of setters with all observables read '
                 'in between (exhaustive), plus random histories; pixel layouts: 1-4 arrays, dyadic / random / log-scaled widths, '
                 'nested and overlapping; calibrate: aligned, coarser and random source binning.  A history is non-trivial when a '
-                'setter is called after some cache was filled; distinct by (class, sequence of operation names); value cases distinct by input bits')
+                'setter is called after some cache was filled; distinct by (class, sequence of operation names); value cases distinct by input bits; '
+                'aliasing histories: every array/list-valued parameter handed over as tuple/list of float64 arrays, slices of one shared buffer, '
+                '2-D array, int arrays, list of lists/tuples (constructor and setter), caches filled, the caller\'s object changed in place, '
+                'optionally another setter called, everything read and compared with an instrument built from the original values')
     ctx.trusted += ['translator harness/translators/instrument_edges.py (syntactic; validated by the shape and deps streams)',
                     'raysect Spectrum.integrate is a parameter of calibrate (hypothesis Additive checked numerically each run); '
                     'numpy ceil/diff/min, cos/tan/sqrt are parameters (ceil := Int.ceil in the theorems)',
                     'link between the interpreter and the protocol tables: clearsOf/depsOf are computed by the interpreter/closure in '
                     'Lean from the generated table (side condition setterGuardsStable in wf_*), compared with the running code by K']
-    ctx.assumptions += ['setter arguments are fresh objects (in-place mutation of a list/array previously handed to a setter is outside the quantifier)',
+    ctx.assumptions += ['in-place mutation of an object previously handed to a setter is covered for every parameter the tree copies (wavelength_to_pixel: '
+                        'obligation no_alias_* + aliasing histories); Polychromator.filters and CzernyTurnerSpectrometer.accommodated_spectra keep the '
+                        'caller\'s list by reference in the tree as first read: recorded as an observation (coverage.aliasing_documented), not a failure',
                         'Czerny-Turner parameters stay on the branch resolution > 0 (p < cos^2(angle)); layouts that are not finite and increasing are skipped and counted',
                         'theorems are over an ordered field; float gap narrowed by evaluating range/bin-width conclusions on the implementation outputs (1e-12 band counted)']
     # 1. translator
@@ -872,12 +1081,14 @@ def run(ctx):
     ok1 = ctx.lean_check(['Cherab.Props.C16'], 'Cherab/Audit/C16.lean')
     ok2 = ctx.lean_check(['Cherab.Props.C16Table'], 'Cherab/Audit/C16Table.lean')
     ok3 = ctx.lean_check(['Cherab.Props.C16Init'], 'Cherab/Audit/C16Init.lean')
-    ctx.checker_cmd = ('cd %s/lean && lake build Cherab.Props.C16 Cherab.Props.C16Table Cherab.Props.C16Init && '
-                       'for f in C16 C16Table C16Init; do lake env lean Cherab/Audit/$f.lean; done' % VERIF)
+    ok4 = ctx.lean_check(['Cherab.Props.C16Alias'], 'Cherab/Audit/C16Alias.lean')
+    ctx.checker_cmd = ('cd %s/lean && lake build Cherab.Props.C16 Cherab.Props.C16Table Cherab.Props.C16Init Cherab.Props.C16Alias && '
+                       'for f in C16 C16Table C16Init C16Alias; do lake env lean Cherab/Audit/$f.lean; done' % VERIF)
     # 3. K + S on the implementation
     rng = ctx.rng
     vals = Values()
     stream = Stream()
+    OBSERVED_ALIASING.clear()
     for cname, tab in tabs.items():
         stream.add('gaps ' + cname, _gaps_checker(ctx, cname), 'gaps')
         unknown = [p for p, _ in tab['setters'] if p not in PRIMARY_SETTERS]
@@ -889,6 +1100,7 @@ def run(ctx):
         rig = Rig(ctx, tab, stream, vals)
         base = base_params(rng, rig)
         init_monitor(ctx, vals, tab, base)
+        alias_histories(ctx, vals, tab, ctx.n(4, 40))
         deps_check(ctx, stream, vals, tab, base)
         setters = [p for p, _ in tab['setters']]
         # exhaustive: all ordered pairs / triples of setters, everything observed in between
@@ -952,7 +1164,14 @@ def run(ctx):
 def _gaps_checker(ctx, cname):
     def chk(out):
         ctx.extra.setdefault('table_status', {})[cname] = out
+        pred = [t[len('aliased='):] for t in out.split() if t.startswith('aliased=')]
+        pred = set() if not pred or pred[0] == '-' else set(pred[0].split(','))
+        seen = OBSERVED_ALIASING.get(cname, set())
+        if not seen <= pred:
+            return 'attributes %s keep a reference to the caller\'s object; the table predicts only %s' % (sorted(seen - pred), sorted(pred))
         return None
+    chk.what = 'aliased attributes'
+    chk.history = dict(cls=cname)
     return chk
 
 
@@ -972,6 +1191,8 @@ def _replay_one(ctx, vals, tabs, r):
     tab = tabs.get(r.get('cls'))
     if kind == 'init' and tab:
         init_monitor(ctx, vals, dict(tab, getters=[(g, m) for g, m in tab['getters'] if g == r['getter']]), r['params'])
+    elif kind == 'alias' and tab:
+        alias_case(ctx, vals, tab, r['params'], r['prop'], r['variant'], r['via'], r.get('other'))
     elif kind == 'history' and tab:
         hist = r['history']
         obs = r.get('observable')
